@@ -360,6 +360,185 @@ def _replay_pure(r: dict) -> bool:
 
 
 # ---------------------------------------------------------------------------
+# PART 2 — through the trigger component and its stores
+# ---------------------------------------------------------------------------
+APP_ID = "c13cron"
+STORE_T0 = env.EPOCH0 - 60          # 22:13:00 UTC; */2 is scheduled at +60, +180, +300, +420
+STORE_GAPS = (10, 30, 60, 61, 120)
+STORE_HORIZON = 480
+# builder: "on_cron" = the public helper (default window 60 / interval 50 / lenient);
+# "custom" = TriggerBuilder().add_condition(CronCondition(...)) with the given settings
+STORE_CFGS = {
+    "every2-default": dict(expr="*/2 * * * *", builder="on_cron", window=60, min_interval=50, strict=False, tolerance=30),
+    "every1-default": dict(expr="* * * * *", builder="on_cron", window=60, min_interval=50, strict=False, tolerance=30),
+    "every2-w120-i0": dict(expr="*/2 * * * *", builder="custom", window=120, min_interval=0, strict=False, tolerance=30),
+    "list-w60-i70": dict(expr="14,15,17 * * * *", builder="custom", window=60, min_interval=70, strict=False, tolerance=30),
+}
+
+
+def _builder(cfg: dict) -> Any:
+    from pynenc.trigger.trigger_builder import TriggerBuilder, on_cron
+
+    if cfg["builder"] == "on_cron":
+        return on_cron(cfg["expr"])
+    return TriggerBuilder().add_condition(_condition(cfg))
+
+
+def _runner_app(backend: str, cfg: dict, db: str | None) -> tuple:
+    """What a starting runner does: app object, task decorated with its trigger, deferred registration."""
+    from vf import tasks_c13_cron as T
+
+    app = env.make_app(backend, app_id=APP_ID, db=db)
+    task = tasks.bind(app, T.cron_job, triggers=[_builder(cfg)])
+    app.register_deferred_triggers()
+    return app, task
+
+
+class StoreWorld:
+    def __init__(self, backend: str, cfg: dict) -> None:
+        env.reset_world(STORE_T0)
+        env.CLOCK.frozen = True
+        self.backend, self.cfg = backend, cfg
+        self.db = env.reuse_db(APP_ID) if backend == env.SQLITE else None
+        n = 1 if backend == env.MEM else 2
+        pairs = [_runner_app(backend, cfg, self.db) for _ in range(n)]
+        self.apps = [a for a, _ in pairs]
+        self.task = pairs[0][1]
+        self.cond_id = f"cron_{cfg['expr']}"
+        self.now = 0
+        self.model_last: int | None = None
+        self.restarted_since_fire = False
+        self.orc = Oracle(cfg["expr"], int(STORE_T0), STORE_HORIZON, cfg["window"], cfg["min_interval"],
+                          cfg["strict"], cfg["tolerance"])
+
+    def launched(self) -> int:
+        return len(list(self.apps[0].orchestrator.get_task_invocation_ids(self.task.task_id)))
+
+    def apply(self, op: tuple) -> tuple:
+        """-> (observed launches, predicted launches) of this operation."""
+        env.CLOCK.frozen = True
+        if op[0] == "restart":
+            env.CLOCK.now = STORE_T0 + self.now
+            before = self.launched()
+            self.apps[op[1]], _ = _runner_app(self.backend, self.cfg, self.db)
+            self.restarted_since_fire = True
+            return self.launched() - before, 0
+        _, gap, k = op
+        self.now += gap
+        env.CLOCK.now = STORE_T0 + self.now
+        before = self.launched()
+        self.apps[k].trigger.trigger_loop_iteration()
+        observed = self.launched() - before
+        predicted = 1 if self.orc.expect(self.now, self.model_last) else 0
+        if predicted:
+            self.model_last = self.now
+            self.restarted_since_fire = False
+        return observed, predicted
+
+    def _off(self, d: Any) -> Any:
+        return None if d is None else round(d.timestamp() - STORE_T0, 6)
+
+    def stored_last(self) -> Any:
+        return self._off(self.apps[0].trigger.get_last_cron_execution(self.cond_id))
+
+    def dump(self) -> tuple:
+        """Concrete state that can influence a later poll (claims are keyed by the poll instant, which
+        never recurs; launched invocations are compared per operation)."""
+        caches = tuple(self._off(a.trigger._last_cron_execution_cache.get(self.cond_id)) for a in self.apps)
+        pending = tuple(sorted(self.apps[0].trigger.get_valid_conditions()))
+        return (self.now, self.stored_last(), caches, pending, self.model_last)
+
+
+def _store_alphabet(backend: str, hist: list, now: int, restarts: int, max_restarts: int) -> list[tuple]:
+    ops: list[tuple] = []
+    pollers = (0,) if backend == env.MEM or not hist else (0, 1)  # the two runners are built alike: the first
+    for g in STORE_GAPS:                                          # poll is runner 0's (symmetry)
+        if now + g <= STORE_HORIZON:
+            ops.extend(("poll", g, k) for k in pollers)
+    if backend == env.SQLITE and restarts < max_restarts and hist and hist[-1][0] != "restart":
+        ops.append(("restart", 1))
+    return ops
+
+
+def _store_violation(w: StoreWorld, op: tuple, observed: int, predicted: int, stored_before: Any) -> tuple:
+    if observed > predicted:
+        clause = "launched-without-a-due-tick" if w.orc.latest(w.now) is None or not (
+            0 <= w.now - w.orc.latest(w.now) <= w.orc.limit) else "scheduled-minute-launched-twice"
+    else:
+        clause = "due-tick-not-launched"
+    sig = {"clause": clause, "part": "store", "backend": w.backend, "config": w.cfg["name"], "op": op[0]}
+    if clause == "scheduled-minute-launched-twice" and w.restarted_since_fire and stored_before is None:
+        sig = {"clause": clause, "part": "store", "backend": w.backend,
+               "cause": "registration-of-a-restarting-runner-erased-the-stored-last-execution"}
+    return sig, {"observed_launches": observed, "predicted": predicted, "now": w.now,
+                 "latest_scheduled": w.orc.latest(w.now), "model_last_firing": w.model_last,
+                 "stored_last_before_poll": stored_before, "config": w.cfg}
+
+
+def _store_unit(item: tuple) -> Partial:
+    backend, name, max_restarts = item
+    cfg = dict(STORE_CFGS[name], name=name)
+    p = Partial()
+    try:
+        w = StoreWorld(backend, cfg)
+        seen = {w.dump()}
+        frontier: list[tuple] = [([], 0, 0)]
+        reported: set[str] = set()
+        longest: list = []
+        while frontier:
+            nxt = []
+            for hist, now, restarts in frontier:
+                for op in _store_alphabet(backend, hist, now, restarts, max_restarts):
+                    w = StoreWorld(backend, cfg)
+                    for h in hist:
+                        w.apply(h)
+                    stored_before = w.stored_last()
+                    observed, predicted = w.apply(op)
+                    p.count("transitions")
+                    p.count("traces_validated_against_impl")
+                    p.count("store_polls" if op[0] == "poll" else "store_restarts")
+                    p.count("store_launches", observed)
+                    if observed != predicted:
+                        sig, detail = _store_violation(w, op, observed, predicted, stored_before)
+                        k = repr(sorted(sig.items()))
+                        if k not in reported:
+                            reported.add(k)
+                            detail["history"] = hist + [op]
+                            p.violation(sig, detail, {"kind": "store", "part": PART, "backend": backend,
+                                                      "config": name, "history": hist + [op]})
+                        continue  # a state behind a violation is not expanded
+                    d = w.dump()
+                    if d not in seen:
+                        seen.add(d)
+                        nxt.append((hist + [op], w.now, restarts + (op[0] == "restart")))
+                        longest = hist + [op]
+            frontier = nxt
+        p.count("bfs_states", len(seen))
+        p.add("store_configs", (backend, name))
+        p.sample({"part": "store", "backend": backend, "config": name, "states": len(seen),
+                  "a_longest_history": [list(o) for o in longest][:30]})
+    finally:
+        env.CLOCK.frozen = False
+    return p
+
+
+def _replay_store(r: dict) -> bool:
+    cfg = dict(STORE_CFGS[r["config"]], name=r["config"])
+    bad = False
+    try:
+        w = StoreWorld(r["backend"], cfg)
+        for op in r["history"]:
+            stored_before = w.stored_last()
+            observed, predicted = w.apply(tuple(op))
+            if observed != predicted:
+                print("  replayed:", _store_violation(w, tuple(op), observed, predicted, stored_before)[0])
+                bad = True
+    finally:
+        env.CLOCK.frozen = False
+    return bad
+
+
+# ---------------------------------------------------------------------------
 def run_part(ctx: Ctx) -> None:
     only = getattr(ctx, "only", None) or ""
     if not only or "pure" in only:
@@ -370,6 +549,11 @@ def run_part(ctx: Ctx) -> None:
         order = order[rot:] + order[:rot]
         for part in par.pmap(_pure_unit, [items[i] for i in order]):
             ctx.merge(part)
+    if not only or "store" in only:
+        names = list(STORE_CFGS) if ctx.thorough else ["every2-default", "list-w60-i70"]
+        sitems = [(b, n, 1) for n in names for b in (env.SQLITE, env.MEM)]
+        for part in par.pmap(_store_unit, sitems):
+            ctx.merge(part)
     ctx.rule = "cron"
 
 
@@ -379,4 +563,6 @@ def replay_part(payload: dict) -> bool:
         return e1.replay_schedule(r)
     if r.get("kind") == "pure":
         return _replay_pure(r)
+    if r.get("kind") == "store":
+        return _replay_store(r)
     return False
